@@ -50,3 +50,30 @@ Theorem C15_step_order : StepsC15.main_traj_run =
    "if[args.save_as_kitti] if[args.ref] file_interface.write_kitti_poses_file(dest, ref_traj, confirm_overwrite=not args.no_warnings)"].
 Proof. reflexivity. Qed.
 Print Assumptions C15_step_order.
+
+(* ---- more about --invert_transform (added after every property had a check) ---- *)
+Theorem C15_inverted_transform_form : forall (cbrt : R -> R) (r : M3R) (t : V3R) (s : R),
+  (forall x, cbrt x * cbrt x * cbrt x = x) -> SO3 r -> 0 < s ->
+  invert_loaded cbrt (sim3 r t s) = sim3 (mt r) (vopp (mv (mt r) (vscale (1 / s) t))) (1 / s).
+Proof. exact invert_loaded_form. Qed.
+Print Assumptions C15_inverted_transform_form.
+Theorem C15_inverting_twice_is_the_loaded_matrix : forall (cbrt : R -> R) (r : M3R) (t : V3R) (s : R),
+  (forall x, cbrt x * cbrt x * cbrt x = x) -> SO3 r -> 0 < s ->
+  invert_loaded cbrt (invert_loaded cbrt (sim3 r t s)) = sim3 r t s.
+Proof. exact invert_loaded_involutive. Qed.
+Print Assumptions C15_inverting_twice_is_the_loaded_matrix.
+(* on every trajectory: transforming with the loaded matrix and then with its inversion, on the same side, in either
+   order, restores every pose *)
+Theorem C15_inverted_transform_undoes_the_transform : forall (cbrt : R -> R) (r : M3R) (t : V3R) (s : R) (P : list PoseR),
+  (forall x, cbrt x * cbrt x * cbrt x = x) -> SO3 r -> 0 < s ->
+  let A := sim3 r t s in let Ai := invert_loaded cbrt A in
+  transform_poses Ai false false (transform_poses A false false P) = P /\
+  transform_poses A false false (transform_poses Ai false false P) = P /\
+  transform_poses Ai true false (transform_poses A true false P) = P /\
+  transform_poses A true false (transform_poses Ai true false P) = P.
+Proof. exact invert_loaded_undoes. Qed.
+Print Assumptions C15_inverted_transform_undoes_the_transform.
+Theorem C15_inverted_se3_is_se3_inverse : forall (cbrt : R -> R) (r : M3R) (t : V3R),
+  (forall x, cbrt x * cbrt x * cbrt x = x) -> SO3 r -> invert_loaded cbrt (sim3 r t 1) = se3_inverse (mkPose r t).
+Proof. exact invert_loaded_se3. Qed.
+Print Assumptions C15_inverted_se3_is_se3_inverse.
